@@ -2,6 +2,7 @@ package mon
 
 import (
 	"fmt"
+	"github.com/xjslang/xjs/ast"
 	"github.com/xjslang/xjs/lexer"
 	"github.com/xjslang/xjs/parser"
 	"math/rand/v2"
@@ -286,6 +287,14 @@ func checkC08Prog(t *fw.T, r *rand.Rand, prog *gen.Node) {
 	if t.Thorough() && !limitCfgs {
 		cfgs = append([]Cfg{{}}, all...)
 	}
+	// all maps are produced first and read afterwards - after the later compilations of this case and after two
+	// compilations of an unrelated program with other names: a result that has been handed out is the caller's
+	type produced struct {
+		cm    Cfg
+		res   compiler.CompileResult
+		plain string
+	}
+	var outs []produced
 	for _, c := range cfgs {
 		cm := c
 		cm.Map = true
@@ -304,9 +313,20 @@ func checkC08Prog(t *fw.T, r *rand.Rand, prog *gen.Node) {
 		}) {
 			continue
 		}
-		checkSourceMap(t, rd, cm, res, plain)
+		outs = append(outs, produced{cm, res, plain})
+	}
+	t.Guard("compile an unrelated program", nil, func() {
+		if otherProgram == nil {
+			otherProgram = parse("let zeta = [omega1, omega2]\nfunction kappa(lambda) { return lambda + zeta }\nkappa(`t\n`)", Mode{}).Prog
+		}
+		Cfg{Map: true}.Compile(otherProgram)
+		Cfg{Pretty: true, Tabs: true, NoSemi: true, Map: true}.Compile(otherProgram)
+	})
+	for _, o := range outs {
+		checkSourceMap(t, rd, o.cm, o.res, o.plain)
 		t.Count("maps_checked", 1)
-		t.Feature("configs", cm.String())
+		t.Count("maps_read_after_later_compilations", 1)
+		t.Feature("configs", o.cm.String())
 	}
 	t.Distinct(rd.Src)
 	if strings.Contains(rd.Src, "\n") {
@@ -317,6 +337,8 @@ func checkC08Prog(t *fw.T, r *rand.Rand, prog *gen.Node) {
 		t.Sample(map[string]any{"stratum": "programs", "source": rd.Src, "compact": res.Code, "mappings": res.SourceMap.Mappings, "names": res.SourceMap.Names})
 	}
 }
+
+var otherProgram *ast.Program
 
 func init() {
 	fw.Register(&fw.Property{
